@@ -258,8 +258,16 @@ def handleWire (id req obs alloc : String) : Except String Verdict := do
   let some r := fromHex req | throw "outside-domain: request"
   let some al := alloc.toNat? | throw "outside-domain: alloc"
   -- validation run (not proof): no model of fasthttp's request parser; the oracles are in the spec
+  let lo := toLower r
+  let has (s : String) : Bool := (indexOf lo (b s)).isSome
+  let crlfs := (r.zip (r.drop 1)).countP fun (x, y) => x = 13 ∧ y = 10
+  let shape :=
+    (if has "transfer-encoding" then ["wire-chunked"] else []) ++ (if has "expect:" then ["wire-expect"] else []) ++
+    (if has "multipart/" then ["wire-multipart"] else []) ++ (if crlfs > 50 then ["wire-manyhdr"] else []) ++
+    (if (splitOn r 10).countP (fun l => hasSuffix l (b " HTTP/1.1\r")) > 1 then ["wire-pipelined"] else []) ++
+    (if obs.startsWith "ok:100" then ["wire-100-continue"] else [])
   pure { id := id, modelObs := obs, implObs := obs, spec := specWire r obs al,
-         tags := ["wire", if obs.startsWith "ok" then "wire-answered" else "wire-" ++ (obs.take 7).toString] }
+         tags := ["wire", if obs.startsWith "ok" then "wire-answered" else "wire-" ++ (obs.take 7).toString] ++ shape }
 
 def handleCase (f : List String) : Except String Verdict := do
   if let some r := C07.Cases.handle f then return ← r
